@@ -63,6 +63,7 @@ def step (line : String) : String :=
   | "findattr" :: args => handleCascade "findattr" args
   | "vb2ts" :: args => handleGeom "vb2ts" args
   | "nestedvb" :: args => handleGeom "nestedvb" args
+  | "imagefit" :: args => handleGeom "imagefit" args
   | "concat" :: args => handleGeom "concat" args
   | "svgsize" :: args => handleGeom "svgsize" args
   | "fontsize" :: args => handleGeom "fontsize" args
